@@ -82,7 +82,7 @@ CFG = {
                                  # phase 4: the switch of projString (every text / flag / numeric key) and its tail, the arithmetic of
                                  # DeriveConstants and the numeric constants REGENERATED, with ties
                                  "genProjKV_eq", "genLowerDatum_eq", "projString_gen", "genProjHandModelled_pin", "gen_consts_eq",
-                                 "genDeriveArith_eq", "deriveCore_gen", "genDeriveFrame_pin", "genDatumRename_steps", "genDatumRename_eq", "genWktProjection_eq", "genCodeWords_eq", "genTestWKTLoop_pin",
+                                 "genDeriveArith_eq", "deriveCore_gen", "genDeriveFrame_pin", "genDatumRename_steps", "genDatumRename_eq", "genWktProjection_eq", "genCodeWords_eq", "genTestWKTLoop_pin", "parseDef_gen",
                                  # phase 4: which .prj a layer is read from — the path expressions of NewDecoder / Decoder.SR regenerated,
                                  # over an arbitrary file system and every layer name
                                  "C20_prj_siblings", "C20_prj_path", "C20_prj_own_file", "C20_prj_same_text_equal", "trimSuffix_append",
